@@ -28,7 +28,9 @@ def model_case(draw, model):
         W = draw(gens.array((len(sysd["A"]),), 0.3, 3.0, styles=("raw", "int")))
         W = np.maximum(np.asarray(W), 0.3).tolist()
     return dict(system=sysd, rows=rows, W=W, entry=draw(st.sampled_from(["function", "estimator"])),
-                accuracy=draw(st.sampled_from(["default", "high"])))
+                accuracy=draw(st.sampled_from(["default", "high"])),
+                # how many targets are stacked into one problem: a performance setting only (Poisson / gaussian)
+                batch_size=(draw(st.sampled_from([None, None, 2, 3, "full"])) if model == "poisson" else None))
 
 
 def run_model(sv, B, W, model, entry, **opt):
@@ -99,11 +101,12 @@ def body_poisson(case):
     sv = Sys(case["system"])
     B = np.array([r["b"] for r in case["rows"]], dtype=float)
     W = case["W"]
-    with calling("poisson fit"):
-        X, Bp = run_model(sv, B, W, "poisson", case["entry"])
+    bs = case.get("batch_size")
+    with calling(f"poisson fit (batch_size={bs})"):
+        X, Bp = run_model(sv, B, W, "poisson", case["entry"], **({} if bs is None else dict(batch_size=bs)))
     common_checks(sv, B, X, Bp, "poisson")
     w = np.ones(sv.m) if W is None else np.asarray(W, dtype=float)
-    labs = sv.labels() + ["W" if W is not None else "noW", f"entry:{case['entry']}"]
+    labs = sv.labels() + ["W" if W is not None else "noW", f"entry:{case['entry']}", f"batch:{bs}"]
     for i, (r, b) in enumerate(zip(case["rows"], B)):
         xc = np.clip(X[i], sv.lb, np.where(np.isfinite(sv.ub), sv.ub, np.inf))
         f_code = poisson_nll(sv, xc, b, w)
@@ -215,7 +218,8 @@ def body_excitation(case):
 def agree_case(draw):
     sysd = draw(nonneg_system())
     rows = draw(target_rows(sysd, ["interior"], nrows=(1, 2), margin=(0.1, 0.45)))
-    return dict(system=sysd, rows=rows, models=draw(st.sampled_from([["gaussian", "poisson"], ["gaussian", "poisson"], ["gaussian", "poisson", "excitation"]])))
+    return dict(system=sysd, rows=rows, models=draw(st.sampled_from([["gaussian", "poisson"], ["gaussian", "poisson"], ["gaussian", "poisson", "excitation"]])),
+                batch_size=draw(st.sampled_from([None, None, 2, "full"])))
 
 
 def body_agree(case):
@@ -223,8 +227,9 @@ def body_agree(case):
     B = np.array([r["b"] for r in case["rows"]], dtype=float)
     labs = sv.labels()
     for model in case["models"]:
-        with calling(f"{model} fit"):
-            X, Bp = run_model(sv, B, None, model, "estimator")
+        bs = case.get("batch_size") if model != "excitation" else None
+        with calling(f"{model} fit (batch_size={bs})"):
+            X, Bp = run_model(sv, B, None, model, "estimator", **({} if bs is None else dict(batch_size=bs)))
         # Poisson: the likelihood is flat near its optimum, prediction error ~ sqrt(q * gap)
         tol = 2e-2 if model == "gaussian" else (2e-2 * np.maximum(1.0, np.sqrt(B)) if model == "poisson" else 2e-2 * (1 + B) ** 2 + 2e-2)
         check(np.all(np.abs(Bp - B) <= tol), f"agree:{model}-not-reproducing", f"in-gamut targets {B.tolist()} fitted by the {model} model as {Bp.tolist()}")
